@@ -67,6 +67,17 @@ pub fn judge(h: &Handles, t: Triple, got: &Option<Lib>) -> Option<(String, Strin
 
 pub fn check_triple(h: &Handles, t: Triple, st: &mut Stats, mode: Count) {
     st.eval();
+    // decoy queries first: the answer must be a function of the query alone, not of what was
+    // asked before on this thread (hidden caches keyed by a part of the triple)
+    let (xl, xs, xr) = h.dims();
+    let nz = |v: u16, n: u64| -> u16 {
+        let w = (v as u64 + 1 + (hash_triple(t) % 7)) % n;
+        if w == 0 { 1 } else { w as u16 }
+    };
+    for d in [Triple { l: t.l, s: nz(t.s, xs), r: t.r }, Triple { l: t.l, s: t.s, r: nz(t.r, xr) }, Triple { l: nz(t.l, xl), s: t.s, r: t.r }] {
+        let _ = lib_max(h.lib(d));
+        let _ = lib_min(h.lib(d));
+    }
     let got = match lib_max(h.lib(t)) {
         Ok(g) => g,
         Err(p) => {
@@ -158,6 +169,19 @@ pub fn check_parts(h: &Handles, p: &values::Parts, st: &mut Stats, mode: Count) 
     let got = if c1 { Some(after) } else { None };
     if let Some((sig, detail)) = judge(h, t, &got) {
         st.fail(format!("method:{sig}"), case(), size, format!("LanguageIdentifier::maximize(): {detail}"));
+    }
+    // text level: the printed identifier is the expected triple followed by the variants
+    if let Expect::Exact(e) = h.lk.expect_max(t) {
+        let want_t = e.unwrap_or(t);
+        let mut vs: Vec<String> = p.variants.iter().map(|v| v.to_ascii_lowercase()).collect();
+        vs.sort();
+        vs.dedup();
+        let opt = |x: &String| if x.is_empty() { None } else { Some(x.clone()) };
+        let m = crate::model::LangModel { language: if want_t.l == 0 { None } else { Some(h.lk.uni.langs[want_t.l as usize].clone()) }, script: opt(&h.lk.uni.scripts[want_t.s as usize]), region: opt(&h.lk.uni.regions[want_t.r as usize]), variants: vs };
+        let want = crate::model::canon_langid(&m);
+        if li.to_string() != want || loc.id.to_string() != want {
+            st.fail("method:printed-form-differs", case(), size, format!("after maximize(): {li} / {}, expected {want}", loc.id));
+        }
     }
     if !c1 && after != h.lib(t) {
         st.fail("method:false-but-changed", case(), size, format!("maximize() returned false but the identifier became {li}"));
